@@ -137,7 +137,10 @@ fn check_backend<F: Backend>(
         // reuses its register). A second function exports only a random
         // subset: its result intervals are judged against operand intervals
         // taken from the all-nodes twin of the same backend.
-        let subset: Vec<usize> = (0..order.len()).filter(|i| *i + 1 == order.len() || rng.chance(0.35)).collect();
+        // (20% of the functions, and every width-sweep program, export the
+        // root alone: the register pressure of the expression itself)
+        let root_only = order.len() > 400 || rng.chance(0.2);
+        let subset: Vec<usize> = (0..order.len()).filter(|i| *i + 1 == order.len() || (!root_only && rng.chance(0.35))).collect();
         let sub_nodes: Vec<Node> = subset.iter().map(|&i| order[i]).collect();
         let fsub = F::new(&b.ctx, &sub_nodes).unwrap();
         let ssub = slot_map(fsub.vars(), &b.vars).unwrap();
@@ -538,6 +541,11 @@ impl Prop for C03 {
             cfg.n_outputs = 1;
             huge = true;
             st.inc("unit_trig_programs");
+        }
+        if rng.chance(0.01) {
+            cfg = GenCfg::wide_sweep(rng);
+            cfg.n_outputs = 1;
+            st.inc("width_sweep_programs");
         }
         let p = prog::generate(rng, &cfg);
         st.distinct(p.hash());
